@@ -246,6 +246,73 @@ REKEY_TABLE = {
 }
 
 
+TDS_VERTICES = 'core::triangulation_data_structure::Tds::vertices'
+FILTERING = {'filter', 'filter_map', 'take', 'skip', 'step_by', 'take_while', 'skip_while', 'nth', 'last', 'rev_take'}
+
+
+def _seedall(ctx, cfg, prog, mod):
+    """Bulk (re)seeding sites: a body that calls both Tds::vertices and HashGridIndex::insert_vertex in one loop."""
+    import loops
+    n = 0
+    for q, b in sorted(prog.bodies.items()):
+        if '::tests::' in q or not b.file.startswith('src/'):
+            continue
+        vcalls = [bb for bb, t in b.calls() if (t.resolved or t.callee) == TDS_VERTICES]
+        icalls = [bb for bb, t in b.calls() if (t.resolved or t.callee) == IDX_INSERT]
+        if not vcalls or not icalls:
+            continue
+        lps = loops.natural_loops(b)
+        for h, nodes in sorted(lps.items()):
+            ins = {x for x in icalls if x in nodes}
+            if not ins:
+                continue
+            # does the loop iterate Tds::vertices? (the iterator advanced in the loop derives from that call)
+            import valueflow
+            al = mod.aliases(q)
+            nexts = [(bb, t) for bb, t in b.calls() if bb in nodes and (t.callee or t.resolved or '').rsplit('::', 1)[-1] == 'next']
+            from_vertices, adaptors = False, set()
+            for bb, t in nexts:
+                if not t.args or t.args[0].place is None:
+                    continue
+                tt = al.operand_target(t.args[0])
+                for rl in [t.args[0].place.local] + ([tt[0]] if tt is not None else []):
+                    for leaf in valueflow.sources(b, al, rl):
+                        if leaf[0] == 'call':
+                            nm = (leaf[1].resolved or leaf[1].callee or '')
+                            if nm == TDS_VERTICES:
+                                from_vertices = True
+                            if nm.rsplit('::', 1)[-1] in FILTERING:
+                                adaptors.add(nm.rsplit('::', 1)[-1])
+            if not from_vertices:
+                continue
+            n += 1
+            # a cycle through the header that avoids every insert_vertex call?
+            seen = set()
+            work = [(h, s_) for s_ in b.succs(h)]
+            free = False
+            while work:
+                (a_, x) = work.pop()
+                if x not in nodes or x in ins:
+                    continue
+                if x == h:
+                    free = True
+                    break
+                if x in seen:
+                    continue
+                seen.add(x)
+                for s_ in b.succs(x):
+                    work.append((x, s_))
+            ok = not free and not adaptors
+            ctx.ob('SEEDALL', '%s|loop%d' % (b.root or q, sum(1 for o in ctx.obligations if o['rule'] == 'SEEDALL' and o['cfg'] == cfg and o['key'].startswith('SEEDALL|%s|' % (b.root or q)))),
+                   cfg, ok,
+                   'loop over Tds::vertices files every vertex' if ok else
+                   'the loop over Tds::vertices %s: a stored vertex can be missing from the rebuilt index, so a later insertion at '
+                   'its position is not recognised as a duplicate' % (
+                       'can complete an iteration without insert_vertex' if free else 'is narrowed by %s' % sorted(adaptors)),
+                   site='%s:%d' % (b.file, b.blocks[h].term.line))
+    ctx.floor('index (re)seeding loops over Tds::vertices', 2, n, cfg)
+
+
 def run(ctx):
     ctx.rule('PAIR-IDX', 'no exported &mut DelaunayTriangulation operation returns with a vertex added to storage '
                          'and the spatial index neither updated nor dropped (when an index exists)')
@@ -256,9 +323,12 @@ def run(ctx):
                         'duplicate query of the same loop iteration')
     ctx.rule('RESOLVE', 'index candidates are re-resolved in the Tds before the distance test; early None only '
                         'when the index was really used')
+    ctx.rule('SEEDALL', 'wherever the index is (re)built from the Tds, every stored vertex is filed: the loop over Tds::vertices '
+                        'passes insert_vertex on every iteration and no filtering adaptor is applied')
     for cfg in ctx.cfgs:
         prog = ctx.prog(cfg)
         mod = ctx.mod(cfg)
+        _seedall(ctx, cfg, prog, mod)
         res = pair.Resources(prog, mod)
         E = dt_entries(prog, res)
         ctx.floor('exported &mut DelaunayTriangulation operations', 14, len(E), cfg)
